@@ -12,6 +12,7 @@ structure DState where
   failAt : Option Nat := none
   failErr : Nat := 11
   tick : Nat := 0
+  onces : List (Nat × List Nat) := []
 
 def parseAction (s0 : String) : Option Action :=
   let named := s0.endsWith "n" && s0.length > 1
@@ -34,6 +35,8 @@ def parseAction (s0 : String) : Option Action :=
     | 'T', some k => if named then none else some (.setTimeout k)
     | 'Y', some _ => if named then none else some .yield
     | 'S', some k => if named then none else some (.sleep k)
+    | 'O', some k => if named then none else some (.once k)
+    | 'I', some _ => if named then none else some .libInit
     | _, _ => none
 
 def parseActions (l : List String) : Option (List Action) := l.mapM parseAction
@@ -43,6 +46,7 @@ def mkProg (d : DState) : Prog :=
   { n := 8
     managed := fun k => match find k with | some e => e.2.1 | none => false
     body := fun k => if k = 0 then d.mainActs else match find k with | some e => e.2.2 | none => []
+    onceRegs := fun i => match d.onces.find? (fun e => e.1 == i) with | some e => e.2 | none => []
     failAt := d.failAt, failErr := d.failErr, tick := d.tick }
 
 def alive (s : State) (k : Nat) : Bool :=
@@ -249,6 +253,10 @@ def step (d : DState) (t : List String) : DState × List String :=
   | ["fail", n, e] =>
     match n.toNat?, e.toNat? with
     | some n, some e => ({ d with failAt := some n, failErr := e }, [])
+    | _, _ => (d, ["bad-op"])
+  | "once" :: i :: cs =>
+    match i.toNat?, cs.mapM (fun (c : String) => c.toNat?) with
+    | some i, some cs => ({ d with onces := (i, cs) :: d.onces }, [])
     | _, _ => (d, ["bad-op"])
   | ["tick", n] =>
     match parseU64? n with
